@@ -477,7 +477,13 @@ func genValueUint(n *node) func(*frame) (reflect.Value, uint64) {
 
 	switch n.typ.TypeOf().Kind() {
 	case reflect.Int, reflect.Int8, reflect.Int16, reflect.Int32, reflect.Int64:
-		return func(f *frame) (reflect.Value, uint64) { v := value(f); return v, uint64(v.Int()) }
+		// A signed operand is a shift count: a negative one panics, as in compiled code.
+		return func(f *frame) (reflect.Value, uint64) {
+			v := value(f)
+			i := v.Int()
+			_ = 1 << i // runtime error: negative shift amount
+			return v, uint64(i)
+		}
 	case reflect.Uint, reflect.Uint8, reflect.Uint16, reflect.Uint32, reflect.Uint64, reflect.Uintptr:
 		return func(f *frame) (reflect.Value, uint64) { v := value(f); return v, v.Uint() }
 	case reflect.Float32, reflect.Float64:
